@@ -215,7 +215,17 @@ fn exhaustive(uni: usize, n: usize, emit: Option<&mut dyn Write>) -> (usize, usi
     let mut fails = vec![];
     let mut emit = emit;
     let mut k = 0;
+    // inside a universe of `uni` bytes there are at most 2^uni visible states; anything beyond
+    // means the tracker reports ranges outside the universe (a violation in itself)
+    let state_limit = (1usize << uni.min(16)) + 16;
     while let Some((a, path)) = queue.pop_front() {
+        if seen.len() > state_limit {
+            fails.push(format!(
+                "exhaustive-states-outside-universe :: more than {} distinct states reached inside universe {} (last path {:?})",
+                state_limit, uni, path
+            ));
+            break;
+        }
         for op in &ops {
             transitions += 1;
             let mut c = Case { id: format!("x{}-{}", uni, k), cfg: vec![("n".into(), n.to_string())], ops: path.clone() };
